@@ -402,3 +402,31 @@ Definition build_ok_detect_b (f : fs) (o : cli_obs) : bool :=
            | ORejected _ => false
            end
   end.
+
+(* ---------------------------------------------------------------- Prop-level readings of the init oracles *)
+Definition init_ok_P (f : fs) (il : iflags) (bref : json) (o : cli_obs) (after : option json) : Prop :=
+  if init_invalid f il then o = ORejected true
+  else match fs_get f (init_target il) with
+       | Some (NDoc (Some d)) =>
+           if saveable d
+           then match o with
+                | ORejected _ => False
+                | _ => exists a, after = Some a /\ preserved_P 40 bref a /\ load_doc a = Some (normalise (init_config il))
+                end
+           else o = ORejected true
+       | _ => o = ORejected true
+       end.
+Definition init_file_ok_P (f : fs) (il : iflags) (force : bool) (o : cli_obs) (after : option json) : Prop :=
+  let t := or_else (i_output il) "tauri.conf.json" in
+  if init_invalid f il then o = ORejected true
+  else if fs_exists f t && negb force then o = ORejected true
+  else match o with
+       | ORejected u => init_writable f t = false /\ u = true
+       | _ => exists a, after = Some a /\ from_flat a = Some (init_config il)
+       end.
+(* the document a result leaves at a path *)
+Definition doc_at (r : result) (t : string) : option json :=
+  match fs_get (match r with RReject _ f | RFail f | RNoCommands _ f | RRun _ f => f end) t with
+  | Some (NDoc (Some d)) => Some d
+  | _ => None
+  end.
